@@ -421,7 +421,10 @@ def C13(tier):
 def C12(tier):
     models = [
         dict(module="EquiSpaced", name="MC_EquiSpaced_int",
-             cfg=dict(constants=dict(MaxVal=q(tier, 24, 40), Float=False, P=3, EMin=0, EMax=0, FixF4=True), invariants=["SafetyInv", "DoneOK"], properties=["Terminates"])),
+             cfg=dict(constants=dict(MaxVal=q(tier, 24, 40), Float=False, P=3, EMin=0, EMax=0, FixF4=True), invariants=["SafetyInv", "DoneOK"], properties=["Terminates", "RefinesProof"])),
+        # all integers min < max, width > 0: the count loop's invariant, "last edge above the maximum by at most one width", and
+        # coverage of [min, max] by the n bins are proved with TLAPS; MC_EquiSpaced_int checks the refinement
+        dict(engine="tlaps", module="EquiSpacedProof", name="TLAPS_EquiSpacedProof", deps=["EquiSpacedAlg"]),
         dict(module="EquiSpaced", name="MC_EquiSpaced_minifloat",
              cfg=dict(constants=dict(MaxVal=0, Float=True, P=q(tier, 3, 4), EMin=0, EMax=q(tier, 5, 6), FixF4=True), invariants=["SafetyInv", "DoneOK"], properties=["Terminates"])),
     ]
